@@ -4,10 +4,10 @@
 (* the minimised function and the optimiser, and what must come out.       *)
 (*                                                                         *)
 (* Part 1 -- the problem and its solution.  A concave separable model      *)
-(*     LL(x) = - sum_p A[p] * sum_r (x_p - C[p][r])^2                      *)
+(*     LL(x) = - sum_p A[p] * sum_r S[r] * (x_p - C[p][r])^2               *)
 (* with bounds [lo_p, hi_p] (either may be absent) and some parameters     *)
-(* fixed.  The unique maximiser is x*_p = clip(mean_r C[p][r], lo, hi) for *)
-(* free p (fixed ones keep their value); the spec computes LL, gradient,   *)
+(* fixed.  The unique maximiser is x*_p = clip(S-weighted mean of C[p][.]) *)
+(* for free p (fixed ones keep their value); the spec computes LL, gradient *)
 (* Hessian and BHHH at any rational point exactly, and the KKT conditions  *)
 (* (gradient zero in every direction not blocked by an active bound).      *)
 (* A behaviour chooses bounds, start, fixed pattern and algorithm; Emit    *)
@@ -24,6 +24,7 @@ EXTENDS Integers, Sequences, FiniteSets, TLC, Json, Term
 
 CONSTANTS NP, NR,       \* number of parameters, of rows
           A, C,         \* weights A[p] (positive integers), centers C[p][r] (integers)
+          S,            \* S[r]: positive integer scale of row r (a data column): the Hessian depends on the data
           BoundCfgs,    \* set of sequences (per parameter) of [lo |-> [set, v], hi |-> [set, v]] (v rational)
           Starts,       \* set of sequences (per parameter) of rationals (inside the bounds)
           FixedPats,    \* set of sequences of BOOLEAN (TRUE = fixed)
@@ -36,15 +37,18 @@ P == 1..NP
 Rw == 1..NR
 RECURSIVE SumQ(_, _)
 SumQ(f, k) == IF k = 0 THEN Zero ELSE QAdd(f[k], SumQ(f, k - 1))
-Mean(p) == QDiv(SumQ([r \in Rw |-> I(C[p][r])], NR), I(NR))
+Mean(p) == QDiv(SumQ([r \in Rw |-> I(S[r] * C[p][r])], NR), SumQ([r \in Rw |-> I(S[r])], NR))      \* weighted mean
 Clip(v, b) == IF b.lo.set /\ QLess(v, b.lo.v) THEN b.lo.v
               ELSE IF b.hi.set /\ QLess(b.hi.v, v) THEN b.hi.v ELSE v
 Sq(q) == QMul(q, q)
 
-LLAt(x) == QNeg(SumQ([p \in P |-> QMul(I(A[p]), SumQ([r \in Rw |-> Sq(QSub(x[p], I(C[p][r])))], NR))], NP))
-GRow(x, r) == [p \in P |-> QMul(I(-2 * A[p]), QSub(x[p], I(C[p][r])))]        \* gradient of row r
+LLAt(x) == QNeg(SumQ([p \in P |-> QMul(I(A[p]), SumQ([r \in Rw |-> QMul(I(S[r]), Sq(QSub(x[p], I(C[p][r]))))], NR))], NP))
+GRow(x, r) == [p \in P |-> QMul(I(-2 * A[p] * S[r]), QSub(x[p], I(C[p][r])))]        \* gradient of row r
 GAt(x) == [p \in P |-> SumQ([r \in Rw |-> GRow(x, r)[p]], NR)]
-HAt == [p \in P |-> [q \in P |-> IF p = q THEN I(-2 * A[p] * NR) ELSE Zero]]
+SumS == LET RECURSIVE T(_)
+            T(r) == IF r = 0 THEN 0 ELSE S[r] + T(r - 1)
+        IN  T(NR)
+HAt == [p \in P |-> [q \in P |-> IF p = q THEN I(-2 * A[p] * SumS) ELSE Zero]]
 BHHHAt(x) == [p \in P |-> [q \in P |-> SumQ([r \in Rw |-> QMul(GRow(x, r)[p], GRow(x, r)[q])], NR)]]
 
 XStar == [p \in P |-> IF fixed[p] THEN start[p] ELSE Clip(Mean(p), bd[p])]
